@@ -23,7 +23,7 @@ def expected(script, heap_bytes, gc):
     if mode == 1:
         return [oom]
     if mode == 2:
-        if a >= 6 and b > 0:
+        if a == 6 and b > 0:
             # every frame retains b objects: the heap may legitimately run out first
             return [so, oom]
         return [so]
@@ -39,16 +39,18 @@ def generate(rng, heap_bytes, gc):
     if mode == 0:
         a = rng.randrange(8)
         esz = ESZ[a]
-        b = rng.choice([-1, -2, -2**63, -2**31, 0, 1, 2**31 - 1, 2**31, 2**32, 2**60 - 1, 2**60, 2**61, 2**61 + 1, 2**61 + rng.randrange(1000), 2**62, 2**63 - 1,
-                        (2**63 - 1) // esz, (2**63 - 1) // esz + 1, (2**63 - 17) // esz, (2**64) // esz, (2**64) // esz + 3, heap_bytes // 32 // esz, heap_bytes * 2 // esz, heap_bytes // esz,
-                        rng.randrange(0, 5000)])
+        maxlen = (2**63 - 1 - 24) // esz   # largest length whose size still fits into an Int64
+        near = [maxlen, maxlen + 1, maxlen - 1, maxlen // 2, maxlen // 2 + 1, maxlen // 3, maxlen // 4, maxlen // 5, maxlen // 7, (2**64) // esz, (2**64) // esz + 3,
+                (2**63) // esz, (2**63) // esz - 1]
+        b = rng.choice([-1, -2, -2**63, -2**31, 0, 1, 2**31 - 1, 2**31, 2**32, 2**59, 2**60 - 1, 2**60, 2**61, 2**61 + 1, 2**61 + rng.randrange(1000), 2**62, 2**63 - 1,
+                        heap_bytes // 32 // esz, heap_bytes * 2 // esz, heap_bytes // esz, rng.randrange(0, 5000)] + near + near)
         b = max(-2**63, min(2**63 - 1, b))  # must stay a valid Int64 literal for the driver
     elif mode == 1:
         a = rng.choice([0, 2, 3, 9])
         b = rng.choice([0, 1, 100, 1000, 1022, 4093, 8192, 40000, 300000])
     elif mode == 2:
-        a = rng.randrange(7)
-        b = rng.choice([0, 1, 3])
+        a = rng.randrange(9)
+        b = rng.choice([0, 1, 3]) if a < 7 else rng.randrange(0, 400)
     else:
         a = rng.choice([1, 5, 20])
         b = rng.choice([0, 1, 64, 1000, 5000])
